@@ -29,6 +29,8 @@ type Config struct {
 	MaxDepth      int
 	MaxSteps      int
 	MaxIndexSplit int
+	Scheduled     bool // goroutines under the cooperative scheduler (sched.go)
+	MaxPreempt    int
 	MaxSymIndex   int
 	MaxPaths      int
 	MapOrders     bool
@@ -168,6 +170,12 @@ func main() {
 			fmt.Sscan(f[1], &cfg.MaxIndexSplit)
 		case "crypto":
 			cfg.AlgebraCrypto = f[1] == "algebra"
+		case "goroutines":
+			cfg.Scheduled = f[1] == "scheduled"
+			cfg.MaxPreempt = 1
+			for _, o := range f[2:] {
+				fmt.Sscanf(o, "preempt=%d", &cfg.MaxPreempt)
+			}
 		case "symindex":
 			fmt.Sscan(f[1], &cfg.MaxSymIndex)
 		case "summarize":
@@ -278,7 +286,13 @@ func runHarness(prog *ssa.Program, s *Solver, cfg *Config, entry *ssa.Function) 
 		ex.pos = 0
 		in.noSummary = strings.Contains(entry.Name(), "_nosummary_")
 		s.ResetPath()
+		if cfg.Scheduled {
+			in.sched = newSched(cfg.MaxPreempt)
+		}
 		outcome, msg := runPath(in, entry)
+		if in.sched != nil {
+			in.sched.shutdown()
+		}
 		res.Paths++
 		res.Outcomes[outcome]++
 		res.Asserts += in.asserts
